@@ -120,6 +120,10 @@ func main() {
 		names = append(names, sb.String())
 	}
 	names = append(names, "../x", "a/b", "/bin/sh", "..", ".", "x/../y", "sub/x", `a\b`, "../../../../bin/sh", "pathA/x")
+	// names that differ only in letter case from an installed plugin: the
+	// program looked up is age-plugin-<name as given>, nothing more lenient
+	caseNames := []string{"Ab", "AB", "aB", "Yubikey", "YUBIKEY", "Q9", "ZZ", "Zz", "uponly", "UpOnly", "A.B", "A+B-C_D.E"}
+	names = append(caseNames, names...)
 	r.Set("names_exhaustive_len_1_2", exhaustiveNames)
 	r.Set("names_total", len(names))
 
@@ -136,7 +140,7 @@ func main() {
 			plant(strings.ToLower(n))
 		}
 	}
-	for _, n := range []string{"x", "y", "b", "../x", "a/b", "sub/x", "x/../y", "yubikey", "age-plugin-x", "ab", "a.b", "a+b-c_d.e", "zz", "q9"} {
+	for _, n := range []string{"x", "y", "b", "../x", "a/b", "sub/x", "x/../y", "yubikey", "age-plugin-x", "ab", "a.b", "a+b-c_d.e", "zz", "q9", "UPONLY"} {
 		plant(n)
 	}
 	os.WriteFile(filepath.Join(w.root, "x"), []byte("#!/bin/sh\nprintf 'ESCAPED %s\\n' \"$0\" >> "+shellQuote(w.log)+"\n"), 0o755)
@@ -490,7 +494,7 @@ func cliCases(r *mon.Run, w *world, origPath string) {
 		cases = append(cases, cc{"e-j:" + name, []string{"-e", "-j", name, "-o", "out.age", in}, wantJ, nil})
 		cases = append(cases, cc{"d-j:" + name, []string{"-d", "-j", name, "-o", "out.txt", "x.age"}, wantJ, nil})
 	}
-	for _, n := range []string{"x", "zz", "beside", "a.b", "../x", "a/b", "sub/x", "/bin/sh", "..", "x/../y", `a\b`, "X", "a b", "$x", "q9"} {
+	for _, n := range []string{"x", "zz", "beside", "ZZ", "Ab", "a.b", "../x", "a/b", "sub/x", "/bin/sh", "..", "x/../y", `a\b`, "X", "a b", "$x", "q9"} {
 		addName(n)
 	}
 	// a valid X25519 file with plugin-looking stanza types, decrypted natively
@@ -511,8 +515,8 @@ func cliCases(r *mon.Run, w *world, origPath string) {
 	}
 	cases = append(noMatch, cases...)
 
-	if !r.Thorough() && len(cases) > 66 {
-		cases = cases[:66]
+	if !r.Thorough() && len(cases) > 78 {
+		cases = cases[:78]
 	}
 	for i, c := range cases {
 		os.WriteFile(filepath.Join(work, "x.age"), xfile, 0o600)
